@@ -14,6 +14,7 @@ def run(R, tier, seed, only=None):
     kchecks.check_json_prim(R, drv, tier)
     kchecks.check_id(R, drv, tier)
     kchecks.check_fold(R, drv, tier, want=("panic",))
+    kchecks.check_sstr(R, drv, tier)
     drv.close()
     R.cov["bounds"] = {"take_ranges": "k <= 2 (quick) / 3 (thorough) consecutive takes, every bound any i64 or absent", "integers": "64-bit bit-vectors, overflow checks on (dev profile)"}
     R.cov["traces_validated_against_impl"] = R.cov["queries"].get("sat", 0)
